@@ -296,15 +296,15 @@ func Supervise(o *SupOpts) int {
 	}
 
 	cov := map[string]any{
-		"evaluations":         a.evals,
-		"distinct_nontrivial": distinct,
-		"rule":                p.Rule,
-		"samples":             a.samples,
-		"observed":            a.hist,
-		"abstained":           a.abstained,
-		"inconclusive":        a.inconclusive,
-		"batches":             nb,
-		"known_findings_seen": knownSeen,
+		"evaluations":          a.evals,
+		"distinct_nontrivial":  distinct,
+		"rule":                 p.Rule,
+		"samples":              a.samples,
+		"observed":             a.hist,
+		"abstained":            a.abstained,
+		"inconclusive":         a.inconclusive,
+		"batches":              nb,
+		"known_findings_seen":  knownSeen,
 		"violation_signatures": vioSummary,
 	}
 	if p.Exhaustive != nil && p.Exhaustive(o.Tier) {
